@@ -1007,3 +1007,86 @@ Proof.
   split; [apply rows_in_range_b_sound; vm_compute; reflexivity|].
   exists 0%N, 2%N. vm_compute. discriminate.
 Qed.
+
+(* ------------------------------------------------------------------ node-by-node reading of the merged tree
+   (when every node id occurs once in it, which injectivity of the node id over all merged profiles gives) *)
+Definition AllRange (ns : list (N * list tnode)) : Prop :=
+  forall e c, In e ns -> In c (snd e) -> tnode_in_range c.
+
+Lemma children_range ns p c : AllRange ns -> In c (children ns p) -> tnode_in_range c.
+Proof. intros Ha Hc. destruct (children_in _ _ _ Hc) as (e & He & Hce). exact (Ha e c He Hce). Qed.
+
+Lemma set_children_allrange ns p cs : AllRange ns -> (forall c, In c cs -> tnode_in_range c) ->
+  AllRange (set_children ns p cs).
+Proof.
+  intros Ha Hcs. induction ns as [|[k old] r IH]; cbn [set_children].
+  - intros e c [<-|[]] Hc. exact (Hcs c Hc).
+  - destruct (N.eqb k p).
+    + intros e c [<-|He] Hc; [exact (Hcs c Hc)|exact (Ha e c (or_intror He) Hc)].
+    + intros e c [<-|He] Hc; [exact (Ha _ c (or_introl eq_refl) Hc)|].
+      apply (IH (fun e' c' He' => Ha e' c' (or_intror He')) e c He Hc).
+Qed.
+
+Lemma add_existing_range cs r cs' : (forall c, In c cs -> tnode_in_range c) -> add_existing cs r = Some cs' ->
+  forall c, In c cs' -> tnode_in_range c.
+Proof.
+  revert cs'. induction cs as [|d cs IH]; intros cs' Hr H; cbn [add_existing] in H; [discriminate|].
+  destruct (N.eqb (t_id d) (r_id r)).
+  - inversion H; subst cs'. intros c [<-|Hc]; [split; apply wrap64_range|apply Hr; right; exact Hc].
+  - destruct (add_existing cs r) as [l|] eqn:El; [|discriminate]. inversion H; subst cs'.
+    intros c [<-|Hc]; [apply Hr; left; reflexivity|].
+    apply (IH l (fun x Hx => Hr x (or_intror Hx)) eq_refl c Hc).
+Qed.
+
+Lemma merge_rows_allrange limit : forall rows t, AllRange (m_nodes t) -> Forall row_in_range rows ->
+  AllRange (m_nodes (merge_rows limit t rows)).
+Proof.
+  induction rows as [|r rows IH]; intros t Ha Hrr; [exact Ha|]. inversion Hrr as [|x l Hr Hrr']; subst.
+  cbn [merge_rows m_nodes m_num].
+  destruct (add_existing (children (m_nodes t) (r_parent r)) r) as [cs'|] eqn:Eadd.
+  - apply IH; [|exact Hrr']. cbn [m_nodes]. apply set_children_allrange; [exact Ha|].
+    apply (add_existing_range (children (m_nodes t) (r_parent r)) r cs'); [intros c Hc; exact (children_range _ _ _ Ha Hc)|exact Eadd].
+  - destruct (Z.leb limit (m_num t)); [exact Ha|]. apply IH; [|exact Hrr']. cbn [m_nodes].
+    apply set_children_allrange; [exact Ha|]. intros c Hc. apply in_app_or in Hc.
+    destruct Hc as [Hc|[<-|[]]]; [exact (children_range _ _ _ Ha Hc)|exact Hr].
+Qed.
+
+Lemma rows_of_in ns o : In o (rows_of ns) -> exists e c, In e ns /\ In c (snd e) /\
+  r_id o = t_id c /\ r_self o = t_self c /\ r_total o = t_total c.
+Proof.
+  unfold rows_of. intros H. apply in_flat_map in H. destruct H as (e & He & Ho).
+  apply in_map_iff in Ho. destruct Ho as (c & <- & Hc). exists e, c. cbn. tauto.
+Qed.
+
+Lemma rsum_notin comp rows x : ~ In x (map r_id rows) -> rsum r_id comp rows x = 0.
+Proof.
+  induction rows as [|r rows IH]; intros H; [reflexivity|]. rewrite rsum_cons. cbn [map In] in H.
+  destruct (N.eqb (r_id r) x) eqn:E; [apply N.eqb_eq in E; tauto|]. rewrite IH by tauto. lia.
+Qed.
+
+Lemma rsum_nodup comp rows o : NoDup (map r_id rows) -> In o rows ->
+  rsum r_id comp rows (r_id o) = comp (r_self o, r_total o).
+Proof.
+  induction rows as [|m rows IH]; intros Hnd Hin; [contradiction|].
+  cbn [map] in Hnd. inversion Hnd as [|x l Hnotin Hnd']; subst. rewrite rsum_cons. destruct Hin as [->|Hin].
+  - rewrite N.eqb_refl, rsum_notin by exact Hnotin. lia.
+  - destruct (N.eqb (r_id m) (r_id o)) eqn:E.
+    + apply N.eqb_eq in E. exfalso. apply Hnotin. rewrite E. apply in_map. exact Hin.
+    + rewrite IH by assumption. lia.
+Qed.
+
+Theorem merged_nodes_conserve limit rows fs :
+  Z.of_nat (length rows) <= limit -> Forall row_in_range rows -> rconserves rows ->
+  let out := rows_of (m_nodes (merge_trie limit new_tree rows fs)) in
+  NoDup (map r_id out) ->
+  forall o, In o out -> r_id o <> 0%N -> r_total o = wrap64 (r_self o + rchild_tot out (r_id o)).
+Proof.
+  intros Hlim Hrr Hc out Hnd o Ho Hnz.
+  assert (Hrange : in_range (r_total o)).
+  { unfold out in Ho. rewrite merge_trie_nodes in Ho. destruct (rows_of_in _ o Ho) as (e & c & He & Hce & _ & _ & ->).
+    refine (proj2 (merge_rows_allrange limit rows _ _ Hrr e c He Hce)). intros e' c' []. }
+  apply in_range_eqm; [exact Hrange|].
+  pose proof (merged_conserves_rows limit rows fs Hlim Hc (r_id o) Hnz) as H. fold out in H.
+  rewrite rtot_at_rsum, rself_at_rsum in H. rewrite !rsum_nodup in H by assumption. cbn [fst snd] in H.
+  exact H.
+Qed.
